@@ -30,6 +30,8 @@ RULE = ("scan: generated age distributions over 0-5 mailboxes (incl. emptied one
         "large mailboxes (cap 0): 1100 messages in one mailbox with the oldest 30 / the oldest 1050 expired, next to a small control mailbox "
         "(memory store in the quick tier; the file store and a 2200 / 3000 message mailbox in the thorough tier); "
         "after every scan each message ever delivered is asked for by its own id (GetMessage), so what is still in the store does not depend on what a listing shows; "
+        "a stream delivers to a mailbox that is already empty when the pass starts, the delivery parked between its mailbox lookup and its mailbox lock "
+        "from before the walk collects the mailboxes until after the first callback (memory store, verifhook mem.wm.lock): the fresh mail must be there afterwards; "
         "slow: a message is handed to the real Store.AddMessage with a body reader that parks after its first chunk (half way into the store) "
         "while the real DoScan runs on the same store - mostly a mailbox whose listed mail has all expired, so that the scanner's last "
         "removal empties it - and is released when the scan has completed (or after 200 ms if the store makes the scanner wait for the "
